@@ -15,6 +15,7 @@ sqvars == <<s, sqlast>>
 
 Refused == -1
 Extra == 3                      \* positions probed beyond size(): size, size+1, size+2, and the largest index
+Huge == 16                      \* positions far beyond size() whose low 8, 16, 31, 32, 33, 48 or 63 bits are a position inside the bounds
 
 At(q, i) == IF i < Len(q) THEN q[i + 1] ELSE Refused                 \* i is zero-based
 
@@ -23,9 +24,14 @@ Obs(q) == [size |-> Len(q),
            empty |-> (Len(q) = 0),
            at |-> [i \in 1..(Len(q) + Extra) |-> At(q, i - 1)],       \* positions 0 .. size+2
            atmax |-> Refused,                                         \* position SIZE_MAX
+           huge |-> [i \in 1..Huge |-> Refused],                      \* 2^k + j for k in {8,16,31,32,33,48,63}, j in {0, size-1}; SIZE_MAX-1; 2^63-1
            iter |-> q,                                                \* begin() .. end()
            riter |-> [i \in 1..Len(q) |-> q[Len(q) + 1 - i]],          \* --end() .. begin(), read through operator->
            post |-> q,                                                \* the same walk with it++
+           rpost |-> [i \in 1..Len(q) |-> q[Len(q) + 1 - i]],         \* from the last position down to begin(), reading the value of it--
+           eqd |-> [i \in 1..(Len(q) + 1) |-> TRUE],                   \* position(i) == position(i) and not !=, i in 0..size
+           eqo |-> [i \in 1..Len(q) |-> FALSE],                        \* position(i) == position(i+1)
+           bend |-> <<TRUE, TRUE, Len(q) = 0>>,                        \* begin() == position(0), end() == position(size), begin() == end()
            steps |-> Len(q),                                          \* increments from begin() to reach end()
            hsize |-> Len(q),                                          \* size() helper of the owning node, where there is one
            hat |-> [i \in 1..(Len(q) + Extra) |-> At(q, i - 1)]]      \* operator[] helper, where there is one
